@@ -200,6 +200,29 @@ func scenarioBastion(t *traceWriter, rng *rand.Rand) {
 		if allowN > 0 {
 			n = 6
 		}
+		if si%20 == 13 {
+			// five requests that end in 500 (an honest checkpoint already carrying 100 signature lines: the cosigned result
+			// cannot be read back), then ordinary traffic: whatever an internal error leaves behind must not change the
+			// answers that follow
+			for k := 0; k < 5 && !bs.dead; k++ {
+				ls := lss[k%len(lss)]
+				cur := ls.cur
+				if cur == nil {
+					cur = ls.branches[0]
+				}
+				stored := uint64(0)
+				if ls.has {
+					stored = ls.curSize
+				}
+				size := stored
+				if !ls.has {
+					size = 1 + uint64(rng.Intn(4))
+				}
+				cp := signNote(cpText(ls.l.origin, size, cur.root(size)), ls.l.key.signer)
+				cp = append(cp, junkSigLines(rng, 99)...)
+				bs.serve(writeBody(stored, [][]byte{}, cp), "internal.100lines", 500, "")
+			}
+		}
 		if refill {
 			// 2 requests per second, burst 2: two requests pass, six more arrive at once (pushed back unless the machine
 			// stalls), then the caller stays silent for 0.7 s — longer than one token takes to come back — and its
@@ -273,7 +296,12 @@ func (b *bastionSession) oneRequest(w *world, ls *logState) {
 		if rng.Intn(3) == 0 {
 			ext = []string{fmt.Sprintf("ext-%d", rng.Intn(1000000))}
 		}
-		return size, proof, signNote(cpText(l.origin, size, cur.root(size), ext...), l.key.signer)
+		cp := signNote(cpText(l.origin, size, cur.root(size), ext...), l.key.signer)
+		if rng.Intn(6) == 0 {
+			// cosignatures of other witnesses ride along: the request body grows past the line reader's 4096-byte buffer
+			cp = append(cp, junkSigLines(rng, 40+rng.Intn(25))...)
+		}
+		return size, proof, cp
 	}
 	observe := func(status int, size uint64) {
 		if status == 200 {
@@ -455,6 +483,14 @@ func scenarioParseBody(t *traceWriter, rng *rand.Rand) {
 			proof = append(proof, randHash(rng, hl()))
 		}
 		var cp []byte
+		if i%150 == 11 {
+			// a very large checkpoint part (the handler's cap does not apply to parseBody itself): nothing may be cut off
+			big := randHash(rng, 60000+rng.Intn(150000))
+			good := writeBody(old, proof, big)
+			t.line("PBW old=%d proof=%s cp=%s body=%s", old, hxList(proof), hx(big), hx(good))
+			pbLine(t, good, "written")
+			continue
+		}
 		switch rng.Intn(6) {
 		case 0:
 			cp = []byte{}
